@@ -232,9 +232,15 @@ async def make_response(status, headers, payload, environ):
             await environ['asgi.send']({'type': 'websocket.accept',
                                         'headers': headers})
         else:
+            reason = None
             if payload:
-                reason = payload.decode('utf-8') \
-                    if isinstance(payload, bytes) else str(payload)
+                try:
+                    reason = payload.decode('utf-8') \
+                        if isinstance(payload, bytes) else str(payload)
+                except UnicodeDecodeError:
+                    # the body is not text (e.g. it was compressed)
+                    pass
+            if reason:
                 await environ['asgi.send']({'type': 'websocket.close',
                                             'reason': reason})
             else:
